@@ -555,17 +555,14 @@ def s_taproot(ctx):
         pre = rng.choice(["0", "1"])
         w = {"kind": "taproot", "tx": tok_tx(t), "outs": tok_outs(outs), "i": i, "ht": ht, "ext_flag": ext_flag,
              "annex": hx(annex), "ext": hx(ext)}
-        acp_partial = ht in (0x82, 0x83)
-        if len(outs) != n and acp_partial and 0 <= i < n and i >= len(outs):
-            # genuine defect (reported): IndexError instead of BTClibValueError -- kept out of the stream,
-            # checked by the oracle under its own key
-            ctx.check("declared-error.refused", dict(w, why="ANYONECANPAY with fewer prevouts than the index"),
-                      key="taproot.acp.short-prevouts.IndexError")
-            return
         lines.append(f"taproot {w['tx']} {i} {w['outs']} {ht} {ext_flag} {w['annex']} {w['ext']} {pre}")
         ctx.check("precomputed=direct", w)
-        refused = (ht not in SEVEN or not 0 <= i < n or ((ht & 3) == 3 and i >= len(t["vout"]))
-                   or (len(outs) != n and not acp_partial))
+        if len(outs) != n and ht in (0x82, 0x83) and 0 <= i < n and i >= len(outs):
+            # regression of the repaired defect (was an IndexError): ANYONECANPAY|NONE / |SINGLE with fewer
+            # prevouts than the index
+            ctx.check("declared-error.refused", dict(w, why="ANYONECANPAY with fewer prevouts than the index"),
+                      key="taproot.acp.short-prevouts.IndexError")
+        refused = (ht not in SEVEN or not 0 <= i < n or ((ht & 3) == 3 and i >= len(t["vout"])) or len(outs) != n)
         if refused:
             ctx.check("declared-error.refused", dict(w, why="undefined type, index out of range, SINGLE without output "
                                                            "or prevouts/inputs mismatch"))
@@ -582,7 +579,7 @@ def s_taproot(ctx):
         annex = rng.choice([b"", b"\x50", b"\x00", common.rand_bytes(rng, rng.randrange(1, 300))])
         ext_flag, ext = g_ext(rng)
         one(ht, annex, ext_flag, ext, bad=0.04 if rng.random() < 0.3 else 0.0, short=rng.random() < 0.12)
-    # the defect class, deliberately
+    # the repaired defect's class, deliberately (regression: must be refused with BTClibValueError)
     for ht in (0x82, 0x83):
         t = g_tx(rng, n_in=3, n_out=3)
         ctx.check("declared-error.refused",
